@@ -6,6 +6,7 @@ import (
 	"fmt"
 	"net/url"
 	"sort"
+	"strconv"
 	"strings"
 
 	"github.com/getkin/kin-openapi/openapi3"
@@ -797,6 +798,28 @@ type c04docRule struct {
 }
 
 func c04DocRules() []c04docRule {
+	rules := c04DocRulesBase()
+	// component names outside [a-zA-Z0-9._-]+ in every collection: blanks, separators, letters and digits of other scripts
+	samples := map[string]gen.S{
+		"schemas": {"type": "string"}, "parameters": {"name": "zz", "in": "query", "schema": gen.S{"type": "string"}}, "headers": {"schema": gen.S{"type": "string"}},
+		"requestBodies": {"content": gen.S{"application/json": gen.S{"schema": gen.S{"type": "string"}}}}, "responses": {"description": "d"},
+		"securitySchemes": {"type": "http", "scheme": "basic"}, "examples": {"value": 1.0}, "links": {"operationId": "listPets"},
+		"callbacks": {"{$request.query.url}": gen.S{"get": gen.S{"responses": gen.S{"200": gen.S{"description": "ok"}}}}},
+	}
+	for _, coll := range sortedKeys(map[string]any{"schemas": 0, "parameters": 0, "headers": 0, "requestBodies": 0, "responses": 0, "securitySchemes": 0, "examples": 0, "links": 0, "callbacks": 0}) {
+		for _, bad := range []string{"a b", "Stra\u00dfe", "Gr\u00f6\u00dfe", "\u7528\u6237", "Item\u0663", "na\u00efve", "a#b", "a$"} {
+			coll, bad := coll, bad
+			name, _ := strconv.Unquote(`"` + bad + `"`)
+			rules = append(rules, c04docRule{c04rule{name: "malformed-component-name(" + coll + ")"}, func(d gen.S) bool {
+				dig(d, "components", coll)[name] = gen.Clone(samples[coll])
+				return true
+			}})
+		}
+	}
+	return rules
+}
+
+func c04DocRulesBase() []c04docRule {
 	return []c04docRule{
 		{c04rule{name: "duplicate-operationId"}, func(d gen.S) bool {
 			dig(d, "paths", "/pets/{petId}", "delete")["operationId"] = "listPets"
@@ -822,6 +845,15 @@ func c04DocRules() []c04docRule {
 		}},
 		{c04rule{name: "malformed-component-name(parameters)"}, func(d gen.S) bool {
 			dig(d, "components", "parameters")["bad/name"] = gen.S{"name": "zz", "in": "query", "schema": gen.S{"type": "string"}}
+			return true
+		}},
+		// the same operationId reached twice because one path is an alias of another (the operation is one object then)
+		{c04rule{name: "duplicate-operationId(path alias)"}, func(d gen.S) bool {
+			dig(d, "paths")["/animals"] = gen.S{"$ref": "#/paths/~1pets"}
+			return true
+		}},
+		{c04rule{name: "duplicate-operationId(same path item)"}, func(d gen.S) bool {
+			dig(d, "paths", "/pets", "post")["operationId"] = "listPets"
 			return true
 		}},
 		{c04rule{name: "path-without-leading-slash"}, func(d gen.S) bool {
